@@ -4,7 +4,7 @@
    one-wayness of the PRG and is not provable; the theorem is the structural fact the property names. *)
 From Coq Require Import NArith Arith Bool List.
 Import ListNotations.
-From StarV Require Import Params Ggm GgmFacts.
+From StarV Require Import Params Bytes Ggm Ppoprf GgmFacts.
 
 Theorem C11_no_ancestor : forall (Seed : Type) (prg : bool -> Seed -> Seed) (s0 s1 : Seed) (n : nat) (h : list bits)
   (e : bits * Seed) (x : bits),
@@ -32,3 +32,16 @@ Proof.
   intros Seed prg s0 s1 n h e Hn HL He.
   exact (inv_seed Seed prg s0 s1 n _ (proj1 (history_inv Seed prg s0 s1 n h Hn HL)) e He).
 Qed.
+
+(* the state exported for key synchronisation is the encoding of exactly: the OPRF key, the public key, the two
+   PRG keys, the retained (prefix, seed) pairs and the punctured inputs - nothing else (checked byte for byte
+   against the Rust's export on every run); with C11_no_ancestor it therefore holds no node on a punctured path *)
+Theorem C11_export_contents : forall s : server,
+  server_to_bincode s =
+  sc_to_bytes (sv_key s) ++ pk_to_bincode (sv_pk s) ++
+  (bytes_of_le 8 2 ++ sv_k0 s ++ sv_k1 s
+   ++ bytes_of_le 8 (N.of_nat (length (gPrefixes bytes (sv_ggm s))))
+   ++ flat_map (fun ps => bitvec_to_bincode (fst ps) ++ vec_u8_to_bincode (snd ps)) (gPrefixes bytes (sv_ggm s))
+   ++ bytes_of_le 8 (N.of_nat (length (gPunctured bytes (sv_ggm s))))
+   ++ flat_map bitvec_to_bincode (gPunctured bytes (sv_ggm s))).
+Proof. reflexivity. Qed.
